@@ -307,6 +307,25 @@ def install():
         setattr(ef.ExcelFormula, _pname, property(_untraced(_prop.fget)))
     ef.load_functions = _untraced(ef.load_functions)
 
+    # 11. math.isclose on symbolic numbers: the documented formula over (real-valued) finite numbers
+    def _isclose(a, b, *, rel_tol=1e-09, abs_tol=0.0):
+        with NoTracing():
+            sym = any(isinstance(x, CrossHairValue) for x in (a, b, rel_tol, abs_tol))
+            if not sym:
+                return _math.isclose(a, b, rel_tol=rel_tol, abs_tol=abs_tol)
+        if rel_tol < 0 or abs_tol < 0:
+            raise ValueError("tolerances must be non-negative")
+        if a == b:
+            return True
+        diff = a - b if a > b else b - a
+        ma = a if a >= 0 else -a
+        mb = b if b >= 0 else -b
+        bound = rel_tol * (ma if ma > mb else mb)
+        if abs_tol > bound:
+            bound = abs_tol
+        return diff <= bound
+    _core._PATCH_REGISTRATIONS[_math.isclose] = _isclose
+
     _FLOAT_DEFAULT = bl._PYTYPE_TO_WRAPPER_TYPE[float]
 
 
@@ -337,6 +356,7 @@ MODELS = [
     "math.floor/ceil/trunc(symbolic int) = identity, (symbolic float) = the proxy's __floor__/__ceil__/__trunc__ (z3 ToInt)",
     "calendar.monthrange(symbolic): exact day count, first-weekday component an unconstrained int in 0..6",
     "ExcelFormula.rpn/ast/python_code/compiled_python/needed_addresses and load_functions (functions of the concrete formula text only) run with the tracer switched off",
+    "math.isclose(symbolic): |a-b| <= max(rel_tol*max(|a|,|b|), abs_tol) over finite reals",
     "fix: crosshair.fnutil.fn_globals tolerates closures with unassigned free variables",
     "fix of SymbolicBoundedIntTuple._create_up_to (negative slice appended phantom characters)",
     "str.lower()/upper() of a symbolic code point < 128 as the 26-letter ASCII shift (others: CrossHair's Unicode model)",
